@@ -52,6 +52,9 @@ def strategy():
             'split_loose': st.integers(0, 65535),
             'split_packs': st.integers(0, 65535),
             'incremental': st.booleans(),
+            # incremental only: the previous backup was taken within the same wall-clock second as this one's index dump (small
+            # containers are backed up in well under a second); simulated by giving the previous backup's index the dump's mtime
+            'same_second': st.booleans(),
             'holder': st.sampled_from([True, True, False]),
             'early_maint': st.sampled_from([0, 0, 5, 30, 100, 10**9]),
             # -1 = until the actor's next operation boundary: whole maintenance operations / adds are placed between the
@@ -168,6 +171,11 @@ def run_case(case):  # pylint: disable=too-many-locals,too-many-statements,too-m
                 name = os.path.basename(str(src))
                 phase = {'loose': 'loose', 'packs': 'packs', 'packs.idx': 'index'}.get(name, 'rest')
                 sched.yield_point(actor, f'before-{phase}')
+                if phase == 'index' and case['incremental'] and case.get('same_second'):
+                    prev_idx = os.path.join(dest, 'backup_20000101000000_prev', 'packs.idx')
+                    if os.path.exists(prev_idx):
+                        info = os.stat(src)
+                        os.utime(prev_idx, ns=(info.st_atime_ns, info.st_mtime_ns))
                 mask = {'loose': case['split_loose'], 'packs': case['split_packs']}.get(phase, 0)
                 if mask:
                     entries = sorted(os.listdir(src))
@@ -210,7 +218,7 @@ def run_case(case):  # pylint: disable=too-many-locals,too-many-statements,too-m
     sched.add_actor('maint', maintenance)
     sched.add_actor('backup', backup)
     shim = Shim(path, sched, trace_reads=True)
-    labels = ['scenario', 'incremental' if case['incremental'] else 'full'] + (['long-open-holder'] if case.get('holder') else [])
+    labels = ['scenario', 'incremental' if case['incremental'] else 'full'] + (['previous-backup-in-the-same-second'] if case['incremental'] and case.get('same_second') else []) + (['long-open-holder'] if case.get('holder') else [])
     try:
         shim.install()
         try:
